@@ -46,10 +46,27 @@ func (i *instanceMethodStrategy) evaluate(m *MethodEvaluator) error {
 		}
 
 		if !isContained {
-			for _, node := range methodClassNodes {
+			// every ancestor of the calling class counts, not only its direct parents
+			seen := map[base.ClassNode]bool{}
+			methodClassNodes = slices.Clone(methodClassNodes)
+
+			for len(methodClassNodes) > 0 {
+				node := methodClassNodes[0]
+				methodClassNodes = methodClassNodes[1:]
+
+				if seen[node] {
+					continue
+				}
+
+				seen[node] = true
+
 				if node.Frame == methodT.DefinedFrame && node.Class == methodT.DefinedClass {
 					isContained = true
+					break
 				}
+
+				parent := base.ClassNode{Frame: node.Frame, Class: node.Class}
+				methodClassNodes = append(methodClassNodes, base.ClassInheritanceMap[parent]...)
 			}
 		}
 
